@@ -85,12 +85,47 @@ func (e *Engine) callFunction(st *State, fn *ssa.Function, args []Value, bind []
 		e.StubsUsed[full+" -> (ignored)"]++
 		return e.zeroResults(fn)
 	}
-	if len(fn.Blocks) == 0 || (e.inInit && fn.Pkg != e.Pkg && !e.initAllowed(full)) {
+	if len(fn.Blocks) == 0 {
 		if e.inInit {
 			e.Notes = append(e.Notes, "init: skipped "+full)
 			return e.zeroResults(fn)
 		}
 		panic(e.unsupported("external function without model: " + full + " at " + site))
+	}
+	if e.inInit && fn.Pkg != e.Pkg && !e.initTrying {
+		// package initialisation: library calls are executed when the executor supports them and
+		// skipped (zero results, noted) otherwise
+		saveG, saveHeap := st.G, cloneHeap(st.Heap)
+		saveDepth, saveStack := e.depth, len(e.stack)
+		var res Value
+		ok := func() (ok bool) {
+			defer func() {
+				if r := recover(); r != nil {
+					if _, isU := r.(*Unsupported); isU {
+						ok = false
+						return
+					}
+					if er, isE := r.(error); isE {
+						if _, isU := er.(*Unsupported); isU {
+							ok = false
+							return
+						}
+					}
+					panic(r)
+				}
+			}()
+			e.initTrying = true
+			res = e.callFunction(st, fn, args, bind, site)
+			return true
+		}()
+		e.initTrying = false
+		if ok {
+			return res
+		}
+		st.G, st.Heap = saveG, saveHeap
+		e.depth, e.stack = saveDepth, e.stack[:saveStack]
+		e.Notes = append(e.Notes, "init: skipped "+full)
+		return e.zeroResults(fn)
 	}
 	if e.depth > e.Opts.MaxDepth {
 		panic(e.unsupported("call depth exceeded at " + full))
